@@ -1311,7 +1311,7 @@ func c20MErrClass(e interface{}) string {
 	}
 	s := fmt.Sprint(e)
 	switch {
-	case s == "EOF" || strings.Contains(s, "closed pipe"):
+	case s == "EOF":
 		return "eof"
 	case strings.Contains(s, "exceeds max size"):
 		return "toobig"
@@ -1340,29 +1340,32 @@ func c20StartReceiver(conn net.Conn, ds []c20Desc, maxp int) (*MConnection, *c20
 	return b, rc
 }
 
-// c20FeedReceiver writes the raw stream to a real started MConnection and reports deliveries and the error.
+// c20StreamConn is the net.Conn given to the receiving MConnection in the MD/MR cases: reads
+// deliver the prepared byte stream and then io.EOF; writes (pongs) always succeed and are
+// discarded, so the receiver always ends in its recvRoutine after processing every packet.
+type c20StreamConn struct {
+	q *c20Queue
+}
+
+func (c *c20StreamConn) Read(p []byte) (int, error)         { return c.q.Read(p) }
+func (c *c20StreamConn) Write(p []byte) (int, error)        { return len(p), nil }
+func (c *c20StreamConn) Close() error                       { c.q.Close(); return nil }
+func (c *c20StreamConn) LocalAddr() net.Addr                { return nil }
+func (c *c20StreamConn) RemoteAddr() net.Addr               { return nil }
+func (c *c20StreamConn) SetDeadline(t time.Time) error      { return nil }
+func (c *c20StreamConn) SetReadDeadline(t time.Time) error  { return nil }
+func (c *c20StreamConn) SetWriteDeadline(t time.Time) error { return nil }
+
+// c20FeedReceiver hands the raw stream to a real started MConnection and reports deliveries and the error.
 func c20FeedReceiver(o *c20Out, ds []c20Desc, maxp int, stream []byte, pings bool) (events [][2]interface{}, cls string) {
 	if c20Hangs >= 3 {
 		o.Fail(0, "hang", "skipped after repeated hangs")
 		return nil, "hang"
 	}
-	server, client := net.Pipe()
-	b, rc := c20StartReceiver(server, ds, maxp)
-	go io.Copy(io.Discard, client) // pongs
-	client.SetWriteDeadline(time.Now().Add(10 * time.Second))
-	for len(stream) > 0 {
-		k := c20Min(len(stream), 4096)
-		if _, err := client.Write(stream[:k]); err != nil {
-			break
-		}
-		stream = stream[k:]
-	}
-	if pings {
-		// let the pong(s) be flushed before the pipe is closed, so that the receiver ends with the
-		// EOF seen by its recvRoutine (after everything was processed), not a failed pong write
-		time.Sleep(20 * time.Millisecond)
-	}
-	client.Close()
+	sc := &c20StreamConn{q: newC20Queue()}
+	sc.q.Write(stream)
+	sc.q.Close() // EOF after the stream
+	b, rc := c20StartReceiver(sc, ds, maxp)
 	select {
 	case e := <-rc.errCh:
 		cls = c20MErrClass(e)
@@ -1372,7 +1375,6 @@ func c20FeedReceiver(o *c20Out, ds []c20Desc, maxp int, stream []byte, pings boo
 		o.Fail(0, "hang", "receiver neither delivered the end of stream nor reported an error")
 	}
 	b.Stop()
-	server.Close()
 	rc.mu.Lock()
 	events = rc.events
 	rc.mu.Unlock()
